@@ -106,7 +106,8 @@ def parse(xml_text):
             elif c.nodeType in (c.TEXT_NODE, c.CDATA_SECTION_NODE):
                 txt.append(c.data)
         t = "".join(txt)
-        e.text = t.strip() if e.children else t      # (indentation between child elements is not content)
+        # (indentation between / instead of child elements is not content)
+        e.text = t.strip() if (e.children or (t.strip() == "" and "\n" in t)) else t
         return e
     m = re.match(r"\s*(<\?xml[^>]*\?>)", xml_text)
     return Document(m.group(1) if m else "", [conv(dom.documentElement)])
@@ -136,11 +137,16 @@ def doc_table(doc):
 
 
 def serialize(doc):
-    """Document -> text; one element per line (diagnostics are line-based)."""
+    """Document -> text; one element per line (diagnostics are line-based).
+    Iterative (documents nested 10000 deep); indentation stops at 40 columns."""
     out = [doc.decl + "\n"] if doc.decl else []
-
-    def ser(e, ind):
-        sp = " " * ind
+    stack = [(r, 0, False) for r in reversed(doc.roots)]
+    while stack:
+        e, ind, closing = stack.pop()
+        sp = " " * min(ind, 40)
+        if closing:
+            out.append("%s</%s>\n" % (sp, e.tag))
+            continue
         a = "".join(" %s=%s" % (n, quoteattr(v)) for n, v in e.attrs)
         if not e.children and e.text == "":
             out.append("%s<%s%s/>\n" % (sp, e.tag, a))
@@ -148,23 +154,14 @@ def serialize(doc):
             out.append("%s<%s%s>%s</%s>\n" % (sp, e.tag, a, escape(e.text), e.tag))
         else:
             out.append("%s<%s%s>%s\n" % (sp, e.tag, a, escape(e.text)))
-            for c in e.children:
-                ser(c, ind + 4)
-            out.append("%s</%s>\n" % (sp, e.tag))
-    for r in doc.roots:
-        ser(r, 0)
+            stack.append((e, ind, True))
+            for c in reversed(e.children):
+                stack.append((c, ind + 4, False))
     return "".join(out)
 
 
 def serialize_deep(doc):
-    """like serialize, without recursion limits (documents nested 10000 deep)."""
-    import sys
-    old = sys.getrecursionlimit()
-    sys.setrecursionlimit(max(old, 50000))
-    try:
-        return serialize(doc)
-    finally:
-        sys.setrecursionlimit(old)
+    return serialize(doc)
 
 
 _TOKEN = re.compile(r'<\?|\?>|</|/>|<|>|=|"[^"]*"|\s+|[^\s<>="/?]+|.', re.S)
@@ -386,12 +383,23 @@ def expand_files(specs):
     return out
 
 
-def build_case(base_xml, actions, main_name="main.xml"):
-    """Apply the actions of one case (in order) to the base document.
-    Returns (files: {name: bytes}, argv tokens or None, run-as-user flag, vacuous: list of reasons)."""
-    doc = parse(base_xml)
+def clone_doc(doc):
+    """a copy of a parsed document that keeps the element ids"""
+    def cl(e):
+        c = El(e.tag, [list(a) for a in e.attrs], e.text, e.id)
+        for ch in e.children:
+            c.add(cl(ch))
+        return c
+    return Document(doc.decl, [cl(r) for r in doc.roots])
+
+
+def build_case(base, actions, main_name="main.xml"):
+    """Apply the actions of one case (in order) to the base document (XML text
+    or a parsed Document, which is left untouched).
+    Returns (files: {name: bytes}, argv tokens or None, env label, vacuous: list of reasons)."""
+    doc = parse(base) if isinstance(base, str) else clone_doc(base)
     vac = []
-    text_edits, files, argv, asuser = [], [], None, False
+    text_edits, files, argv, asuser = [], [], None, ""
     for a in actions:
         for ed in a["edits"]:
             if ed["op"] in TREE_OPS:
@@ -404,8 +412,8 @@ def build_case(base_xml, actions, main_name="main.xml"):
         files += a["files"]
         if a["argv"]:
             argv = list(a["argv"]) if a["argv"] != ["@none"] else []
-        if a["env"] == "nobody":
-            asuser = True
+        if a["env"]:
+            asuser = a["env"]
     text = serialize_deep(doc)
     st = {"charset": "utf-8"}
     for ed in text_edits:
